@@ -1,656 +1,233 @@
-(* JudgeSoundC06P.v — the executable property of Check/C06_check.v (c06_ok / c06_ok1 / attr_ok, hist_ok) IS the C06
-   property: (b) an implementation output that passes it satisfies the conclusions of C06_sig_threshold /
-   C06_obs_threshold / C06_one_observation_per_node / C06_total_no_panic read on the script of the case, and (a) every
-   outcome the model allows passes it (no code 2 without code 1). *)
-Require Import Verif.Model.Base Verif.Model.Rmn Verif.Proofs.BaseP Verif.Proofs.RmnP.
+(* JudgeSoundC06P.v — the executable property of Check/C06_check.v (c06_ok / c06_ok1_from = c06_core + log_ok + kind_ok +
+   liveness clause; attr_ok; hist_ok) IS the C06 property:
+   (b) an implementation output that passes it satisfies the conclusions of C06_sig_threshold (with the signatures
+       STRICTLY ascending by signer address) / C06_obs_threshold / C06_one_observation_per_node / C06_total_no_panic
+       read on the script of the case, C06_requests_wellformed read on the Send log, C06_failure_origin read on the
+       error kind, and succeeds whenever the hypotheses of C06_liveness hold of the case;
+   (a) every outcome the model allows passes it (no code 2 without code 1).
+   Parts: JudgeSoundC06bP.v (model theorems about the log / the failures / the order), JudgeSoundC06aP.v (c06_core,
+   attr_ok), JudgeSoundC06cP.v (liveness clause); this file puts them together. *)
+Require Export Verif.Model.Base Verif.Model.Rmn Verif.Proofs.BaseP Verif.Proofs.RmnP.
 From Coq Require Import Sorting.Sorted.
-Require Import Verif.Check.C06_check.
+Require Export Verif.Check.C06_check.
+Require Export Verif.Proofs.JudgeSoundC06bP Verif.Proofs.JudgeSoundC06aP Verif.Proofs.JudgeSoundC06cP.
 
-(* ---------------- small generic reflection lemmas ---------------- *)
-Lemma list_eqb_eq {A} (e : A -> A -> bool) (He : forall a b, e a b = true -> a = b) :
-  forall l m, list_eqb e l m = true -> l = m.
+(* ---------------- the Send log of an output ---------------- *)
+Lemma filter_map_comm {A B} (f : B -> bool) (g : A -> B) (l : list A) :
+  filter f (map g l) = map g (filter (fun a => f (g a)) l).
+Proof. induction l as [|a l IH]; cbn; [reflexivity|]. destruct (f (g a)); cbn; now rewrite IH. Qed.
+Lemma existsb_k1_map l : existsb is_k1 (map send_of l) = sig_sent l.
+Proof. unfold sig_sent. induction l as [|r l IH]; cbn; [reflexivity|]. now rewrite IH. Qed.
+Lemma nilb_nil {A} (l : list A) : nilb l = true <-> l = [].
+Proof. destruct l; cbn; split; congruence. Qed.
+Lemma attr_of_nil acc : attr_of acc = [] -> acc = [].
 Proof.
-  induction l as [|x l IH]; intros [|y m] H; cbn [list_eqb] in H; try discriminate; [reflexivity|].
-  apply andb_true_iff in H as [H1 H2]. apply He in H1. subst y. f_equal. apply IH, H2.
-Qed.
-Lemma list_eqb_refl {A} (e : A -> A -> bool) (He : forall a, e a a = true) : forall l, list_eqb e l l = true.
-Proof. induction l as [|x l IH]; cbn [list_eqb]; [reflexivity|]. rewrite He, IH. reflexivity. Qed.
-Lemma NoDup_nodupb l : NoDup l -> nodupb N.eqb l = true.
-Proof.
-  induction 1 as [|x l Hx ND IH]; cbn [nodupb]; [reflexivity|]. rewrite IH, andb_true_r.
-  apply negb_true_iff. apply memN_false. exact Hx.
-Qed.
-Lemma nodup_map_inj {A B} (f : A -> B) (l : list A) a b :
-  NoDup (map f l) -> In a l -> In b l -> f a = f b -> a = b.
-Proof.
-  induction l as [|x l IH]; cbn [map In]; [tauto|]. intros ND Ha Hb E. inversion ND as [|? ? Hx ND']; subst.
-  destruct Ha as [->|Ha], Hb as [->|Hb]; auto.
-  - exfalso. apply Hx. rewrite E. now apply in_map.
-  - exfalso. apply Hx. rewrite <- E. now apply in_map.
-Qed.
-Lemma nodup_map_transfer {A B C} (f : A -> B) (g : A -> C) (l : list A) :
-  NoDup (map f l) -> (forall a b, In a l -> In b l -> g a = g b -> f a = f b) -> NoDup (map g l).
-Proof.
-  induction l as [|x l IH]; cbn [map]; intros ND H; [constructor|]. inversion ND as [|? ? Hx ND']; subst.
-  constructor.
-  - intros Hin. apply in_map_iff in Hin as (y & E & Hy). apply Hx. rewrite <- (H y x); [now apply in_map| now right|now left|exact E].
-  - apply IH; [exact ND'|]. intros a b Ha Hb. apply H; now right.
-Qed.
-Lemma sorted_weaken {A} (R R' : A -> A -> Prop) (l : list A) :
-  (forall a b, R a b -> R' a b) -> StronglySorted R l -> StronglySorted R' l.
-Proof.
-  intros HR. induction 1 as [|x l S IH F]; constructor; [exact IH|].
-  eapply Forall_impl; [|exact F]. intros a. apply HR.
-Qed.
-Lemma sorted_map {A B} (f : A -> B) (R : B -> B -> Prop) (l : list A) :
-  StronglySorted (fun a b => R (f a) (f b)) l <-> StronglySorted R (map f l).
-Proof.
-  induction l as [|x l IH]; cbn [map]; split; intros S; try constructor; inversion S as [|? ? S' F]; subst.
-  - apply IH, S'.
-  - apply Forall_forall. intros y Hy. apply in_map_iff in Hy as (a & <- & Ha). rewrite Forall_forall in F. now apply F.
-  - apply IH, S'.
-  - apply Forall_forall. intros a Ha. rewrite Forall_forall in F. apply F. now apply in_map.
-Qed.
-Lemma somes_in {A} (l : list (option A)) x : In x (somes l) <-> In (Some x) l.
-Proof.
-  induction l as [|[y|] l IH]; cbn [somes In]; [tauto| |].
-  - rewrite IH. split; intros [E|H]; auto; left; congruence.
-  - rewrite IH. split; [auto|]. intros [E|H]; [discriminate|exact H].
-Qed.
-Lemma strictly_ascN_cons x l : strictly_ascN (x :: l) = true -> Forall (N.lt x) l /\ strictly_ascN l = true.
-Proof.
-  revert x. induction l as [|y l IH]; intros x H; [split; [constructor|reflexivity]|].
-  cbn [strictly_ascN] in H. apply andb_true_iff in H as [H1 H2]. apply N.ltb_lt in H1.
-  destruct (IH y H2) as [F _]. split; [|exact H2]. constructor; [exact H1|].
-  eapply Forall_impl; [|exact F]. intros a Ha. cbn in Ha. lia.
-Qed.
-Lemma strictly_ascN_sorted l : strictly_ascN l = true -> StronglySorted N.lt l.
-Proof.
-  induction l as [|x l IH]; intros H; constructor; apply strictly_ascN_cons in H as [F S]; auto.
-Qed.
-Lemma sorted_nodup_strict l : StronglySorted N.le l -> NoDup l -> strictly_ascN l = true.
-Proof.
-  induction l as [|x l IH]; intros S ND; [reflexivity|].
-  inversion S as [|? ? S' F]; subst. inversion ND as [|? ? Hx ND']; subst.
-  specialize (IH S' ND'). destruct l as [|y l]; [reflexivity|].
-  change (N.ltb x y && strictly_ascN (y :: l) = true). rewrite IH, andb_true_r. apply N.ltb_lt.
-  inversion F as [|? ? Hxy _]; subst. assert (x <> y) by (intros ->; apply Hx; now left). lia.
-Qed.
-Lemma find_first {A} (f : A -> bool) l x : In x l -> f x = true -> exists y, find f l = Some y.
-Proof.
-  intros Hin Hf. destruct (find f l) as [y|] eqn:E; [now exists y|].
-  pose proof (find_none f l E x Hin) as H. congruence.
-Qed.
-Lemma addr_eqb_refl (a : addr) : addr_eqb a a = true.
-Proof.
-  unfold addr_eqb. rewrite N.eqb_refl. cbn [andb]. apply list_eqb_refl. intros [p q]. unfold pair_eqb. cbn [fst snd].
-  now rewrite !N.eqb_refl.
-Qed.
-Lemma opt_pairNN_eq (x : option (N * N)) a b :
-  option_eqb (pair_eqb N.eqb N.eqb) x (Some (a, b)) = true <-> x = Some (a, b).
-Proof.
-  destruct x as [[p q]|]; cbn [option_eqb]; [|split; discriminate]. unfold pair_eqb. cbn [fst snd].
-  rewrite andb_true_iff, !N.eqb_eq. split; [intros []; congruence|]. intros E. inversion E. auto.
-Qed.
-Lemma opt_src_eq (x : option (chain * addr)) c a :
-  option_eqb (pair_eqb N.eqb addr_eqb) x (Some (c, a)) = true <-> x = Some (c, a).
-Proof.
-  destruct x as [[p q]|]; cbn [option_eqb]; [|split; discriminate]. unfold pair_eqb. cbn [fst snd]. split.
-  - intros H. apply andb_true_iff in H as [H1 H2]. apply N.eqb_eq in H1. apply addr_eqb_eq in H2. subst. reflexivity.
-  - intros E. inversion E. now rewrite N.eqb_refl, addr_eqb_refl.
+  unfold attr_of. intros H. apply map_eq_nil in H. apply (f_equal (@length _)) in H. rewrite sort_by_length in H.
+  now destruct acc.
 Qed.
 
-(* ---------------- the script of a case read as the event list of the Props theorems ---------------- *)
-Definition item_events (its : list item) : list event :=
-  flat_map (fun it => match item_resp it with Some (n, b) => [Resp n b] | None => [] end) its.
-Lemma item_events_in its n b :
-  In (Resp n b) (item_events its) <-> exists it, In it its /\ item_resp it = Some (n, b).
+(* what a log that passes says (C06_requests_wellformed for an ARBITRARY output) *)
+Definition log_P (cfg : config) (log : list send_t) (attr : list (node * list (chain * root))) : Prop :=
+  match prepare cfg with
+  | inl (Ok us) =>
+      (forall s, In s log ->
+         (snd_kind s = 0%N /\
+          forall ch, In ch (snd_chains s) -> In ch (map u_chain us) /\ In (snd_node s) (rmn_nodes_of cfg ch)) \/
+         (snd_kind s = 1%N /\ In (snd_node s) (signer_nodes cfg) /\ is_home cfg (snd_node s) = true)) /\
+      NoDup (map snd_node (filter is_k0 log)) /\
+      NoDup (map snd_node (filter (fun s => is_k1 s && snd_ok s) log)) /\
+      ((exists s, In s log /\ snd_kind s = 1%N) <-> attr <> [])
+  | _ => log = [] /\ attr = []
+  end.
+
+Lemma log_ok_sound cfg log attr : log_ok cfg log attr = true -> log_P cfg log attr.
 Proof.
-  unfold item_events. rewrite in_flat_map. split.
-  - intros (it & Hit & H). exists it. split; [exact Hit|]. destruct (item_resp it) as [[m c]|]; [|destruct H].
-    destruct H as [E|[]]. inversion E. reflexivity.
-  - intros (it & Hit & E). exists it. split; [exact Hit|]. rewrite E. now left.
+  unfold log_ok, log_P. destruct (prepare cfg) as [[us| | |]|f].
+  2-5: intros H; apply andb_true_iff in H as [H1 H2]; split; now apply nilb_nil.
+  intros H. apply andb_true_iff in H as [H H4]. apply andb_true_iff in H as [H H3]. apply andb_true_iff in H as [H1 H2].
+  split; [|split; [now apply nodupb_nodup|split; [now apply nodupb_nodup|]]].
+  - intros s Hs. rewrite forallb_forall in H1. specialize (H1 s Hs). unfold is_k0, is_k1 in H1.
+    destruct (N.eqb_spec (snd_kind s) 0) as [E0|N0].
+    + left. split; [exact E0|]. intros ch Hch. rewrite forallb_forall in H1. specialize (H1 ch Hch).
+      apply andb_true_iff in H1 as [A B]. split; now apply memN_in.
+    + right. apply andb_true_iff in H1 as [H1 C]. apply andb_true_iff in H1 as [A B].
+      apply N.eqb_eq in A. apply memN_in in B. auto.
+  - apply eqb_prop in H4. split.
+    + intros (s & Hs & K). assert (E : existsb is_k1 log = true).
+      { apply existsb_exists. exists s. split; [exact Hs|]. unfold is_k1. now rewrite K. }
+      rewrite E in H4. symmetry in H4. apply negb_true_iff in H4. intros ->. discriminate.
+    + intros Hne. destruct (existsb is_k1 log) eqn:E.
+      * apply existsb_exists in E as (s & Hs & K). exists s. split; [exact Hs|]. now apply N.eqb_eq in K.
+      * symmetry in H4. apply negb_false_iff, nilb_nil in H4. contradiction.
 Qed.
 
-(* the lanes of an output as the model prints them from a report *)
-Definition lanes_of (rep : report) : list (chain * root) := map (fun p => (lr_chain (fst p), snd p)) rep.
+(* what an error kind that passes says (C06_failure_origin for an ARBITRARY output) *)
+Definition kind_P (cfg : config) (its : list item) (o : out1) : Prop :=
+  (forall f, prepare cfg = inr f -> o_kind o = fail_code f) /\
+  (o_kind o = 3%N -> prepare cfg = inr FNothingToDo) /\
+  (o_kind o = 4%N -> In ICancel its \/ In IRaceCancel its) /\
+  (o_kind o = 5%N -> forall s, In s (o_log o) -> snd_kind s <> 1%N).
 
-(* ================================================================================================================
-   (b) SOUNDNESS
-   ================================================================================================================ *)
-Section Sound.
-  Variable cfg : config.
-  Variable its : list item.
-  Notation evs := (item_events its).
-
-  (* one counted response is the vote evidence of C06_obs_threshold / C06_sig_threshold *)
-  Lemma good_vote_evidence u r it n :
-    In it its -> good_vote cfg u r it = Some n -> vote_evidence edv_c cfg evs n (u_req u) r.
-  Proof.
-    intros Hit H. unfold good_vote in H.
-    destruct (item_resp it) as [[m b]|] eqn:Ei; [|discriminate].
-    destruct b as [|id p]; [discriminate|]. destruct p as [|so|]; try discriminate.
-    destruct so as [[ob|] sg]; [|discriminate].
-    destruct (find_home cfg m) as [hn|] eqn:Eh; [|discriminate].
-    destruct (_ && _) eqn:C in H; [|discriminate]. inversion H; subst m. clear H.
-    repeat (apply andb_true_iff in C as [C ?]).
-    match goal with X : existsb _ _ = true |- _ => apply existsb_exists in X as (lu & Hlu & Clu) end.
-    repeat (apply andb_true_iff in Clu as [Clu ?]).
-    unfold find_home in Eh. apply find_some in Eh as Eh'. destruct Eh' as [Hhn Eid]. apply N.eqb_eq in Eid.
-    split.
-    - exists hn. split; [exact Hhn|]. split; [exact Eid|].
-      match goal with X : memN (u_chain u) _ = true |- _ => apply memN_in in X; exact X end.
-    - exists id, (mkSO (Some ob) sg), ob, hn, lu. cbn [so_obs so_sig].
-      split; [apply item_events_in; now exists it|]. split; [reflexivity|]. split; [exact Eh|].
-      split; [assumption|].
-      split; [match goal with X : option_eqb _ (ob_dest ob) _ = true |- _ => apply opt_pairNN_eq in X; exact X end|].
-      split; [match goal with X : N.eqb (ob_digest ob) _ = true |- _ => apply N.eqb_eq in X; exact X end|].
-      split; [exact Hlu|].
-      split; [apply opt_src_eq in Clu; exact Clu|].
-      split; [match goal with X : option_eqb _ (lu_itv lu) _ = true |- _ => apply opt_pairNN_eq in X; exact X end|].
-      destruct (lu_root lu) as [| |r'|]; try discriminate.
-      match goal with X : N.eqb r' r = true |- _ => apply N.eqb_eq in X; now subst end.
-  Qed.
-
-  Lemma voters_backed u r :
-    gte_f_plus_one (u_F u) (zlen (voters cfg u r its)) = true -> lane_backed edv_c cfg evs (u_req u) (u_F u) r.
-  Proof.
-    intros H. exists (voters cfg u r its). split; [apply dedupN_nodup|]. split; [apply Z.leb_le, H|].
-    intros n Hn. unfold voters in Hn. apply dedupN_in, somes_in, in_map_iff in Hn as (it & E & Hit).
-    eapply good_vote_evidence; eauto.
-  Qed.
-
-  (* one returned signature is the signature evidence of C06_sig_threshold (the stub oracle vrs_c does not look at
-     the report: that every VerifyReportSignatures call saw exactly the report handed back is the flag o_repok) *)
-  Lemma sig_signer_evidence rep rep' g s :
-    sig_signer cfg rep its g = Some s -> sig_evidence vrs_c cfg evs rep' (sg_node s, sg_addr s, g).
-  Proof.
-    intros H. unfold sig_signer in H. apply find_some in H as [Hs C].
-    apply andb_true_iff in C as [C1 C2]. apply existsb_exists in C2 as (it & Hit & C2).
-    destruct (item_resp it) as [[m b]|] eqn:Ei; [|discriminate].
-    destruct b as [|id p]; [discriminate|]. destruct p as [| |[e|]]; try discriminate.
-    apply andb_true_iff in C2 as [C2 C4]. apply andb_true_iff in C2 as [C2 C3].
-    apply N.eqb_eq in C2, C4. subst m. cbn [sig_evidence]. split; [destruct s; exact Hs|].
-    exists id, e. split; [apply item_events_in; now exists it|]. split; [exact C3|]. split; [exact C4|exact C1].
-  Qed.
-End Sound.
-
-(* what an output that passes says about the attributed observations of the signature request: the conclusions of
-   C06_one_observation_per_node (no node twice) and of C06_obs_threshold read on what was handed to the signers (every
-   lane has a root with F_home+1 DISTINCT voters, each carrying that root for the lane among the attributed
-   observations, each with the vote evidence of the theorem in the script; every attributed observation comes from a
-   configured observer of the chain it vouches for) *)
-Definition attr_P (cfg : config) (its : list item) (attr : list (node * list (chain * root))) : Prop :=
-  attr = [] \/
-  (NoDup (map fst attr) /\
-   (forall n l ch r, In (n, l) attr -> In (ch, r) l -> In n (rmn_nodes_of cfg ch)) /\
-   exists us, prepare cfg = inl (Ok us) /\
-     forall u, In u us -> exists r voters,
-       NoDup voters /\ (u_F u + 1 <= zlen voters)%Z /\
-       forall n, In n voters ->
-         (exists l, In (n, l) attr /\ In (u_chain u, r) l) /\
-         vote_evidence edv_c cfg (item_events its) n (u_req u) r).
-
-Lemma vote_pair_eqb_eq p q : vote_pair_eqb p q = true <-> p = q.
-Proof. exact (vote_eqb_eq p q). Qed.
-
-Lemma attr_voters_in attr ch r n :
-  In n (attr_voters attr ch r) <-> exists l, In (n, l) attr /\ In (ch, r) l.
+Lemma kind_ok_sound cfg its o : kind_ok cfg its o = true -> kind_P cfg its o.
 Proof.
-  unfold attr_voters. rewrite dedupN_in, in_map_iff. split.
-  - intros ([m l] & E & H). cbn [fst] in E. subst m. apply filter_In in H as [H1 H2]. cbn [snd] in H2.
-    apply existsb_exists in H2 as (q & Hq & E). apply vote_pair_eqb_eq in E. subst q. now exists l.
-  - intros (l & H1 & H2). exists (n, l). split; [reflexivity|]. apply filter_In. split; [exact H1|].
-    cbn [snd]. apply existsb_exists. exists (ch, r). split; [exact H2|]. now apply vote_pair_eqb_eq.
+  unfold kind_ok, kind_P. intros H. apply andb_true_iff in H as [H H3]. apply andb_true_iff in H as [H1 H2].
+  split; [|split; [|split]].
+  - intros f P. rewrite P in H1. now apply N.eqb_eq in H1.
+  - intros K. destruct (prepare cfg) as [r|f].
+    + assert (negb (N.eqb (o_kind o) 3) = true) by (destruct r; exact H1). rewrite K in H. discriminate.
+    + apply N.eqb_eq in H1. rewrite K in H1. destruct f; try discriminate. reflexivity.
+  - intros K. rewrite K in H2. cbn in H2. apply existsb_exists in H2 as (it & Hit & Hc).
+    destruct it; try discriminate; auto.
+  - intros K s Hs E. rewrite K in H3. cbn in H3. apply negb_true_iff in H3.
+    assert (existsb is_k1 (o_log o) = true); [|congruence].
+    apply existsb_exists. exists s. split; [exact Hs|]. unfold is_k1. now rewrite E.
 Qed.
 
-Lemma attr_ok_sound cfg its attr : attr_ok cfg its attr = true -> attr_P cfg its attr.
+(* ---------------- (b) for the whole executable property ---------------- *)
+Definition c06_full_P (off : nat) (i : c06_in) (o : out1) : Prop :=
+  c06_P i o /\ log_P (i_cfg i) (o_log o) (o_attr o) /\ kind_P (i_cfg i) (i_items i) o /\
+  (* C06_liveness: if its hypotheses hold of the case (for every schedule and event list the model allows), success *)
+  ((exists us rho, live_facts off i us rho) -> live_test_from off i = true -> o_kind o = 0%N).
+
+Theorem c06_ok1_from_sound off i o : c06_ok1_from off i o = true -> c06_full_P off i o.
 Proof.
-  intros H. unfold attr_ok in H. destruct attr as [|a0 attr0] eqn:Ea; [now left|]. rewrite <- Ea in *. right.
-  apply andb_true_iff in H as [H H3]. apply andb_true_iff in H as [H1 H2].
-  split; [apply nodupb_nodup, H1|]. split.
-  - intros n l ch r Hin Hv. rewrite forallb_forall in H2. specialize (H2 _ Hin). cbn [fst snd] in H2.
-    rewrite forallb_forall in H2. specialize (H2 _ Hv). cbn [fst] in H2. now apply memN_in in H2.
-  - destruct (prepare cfg) as [[us| | |]|f]; try discriminate. exists us. split; [reflexivity|].
-    intros u Hu. rewrite forallb_forall in H3. specialize (H3 u Hu).
-    apply existsb_exists in H3 as (a & Ha & H3). apply existsb_exists in H3 as (v & Hv & H3).
-    apply andb_true_iff in H3 as [E G]. apply N.eqb_eq in E.
-    exists (snd v), (filter (fun n => memN n (voters cfg u (snd v) its)) (attr_voters attr (u_chain u) (snd v))).
-    split; [apply nodup_filter, dedupN_nodup|]. split; [apply Z.leb_le, G|]. intros n Hn.
-    apply filter_In in Hn as [Hn1 Hn2]. split; [now apply attr_voters_in in Hn1|].
-    apply memN_in in Hn2. unfold voters in Hn2. apply dedupN_in, somes_in, in_map_iff in Hn2 as (it & E' & Hit).
-    eapply good_vote_evidence; eauto.
+  unfold c06_ok1_from. intros H. apply andb_true_iff in H as [H H4]. apply andb_true_iff in H as [H H3].
+  apply andb_true_iff in H as [H1 H2]. split; [now apply c06_core_sound|]. split; [now apply log_ok_sound|].
+  split; [now apply kind_ok_sound|]. intros _ L. destruct (N.eqb_spec (o_kind o) 0) as [E|N0]; [exact E|].
+  rewrite L in H4. discriminate.
+Qed.
+(* the liveness clause in one line: a passing output of a case that satisfies the test reports success *)
+Theorem c06_ok1_from_live off i o : c06_ok1_from off i o = true -> live_test_from off i = true -> o_kind o = 0%N.
+Proof.
+  intros H L. destruct (c06_ok1_from_sound off i o H) as (_ & _ & _ & Hl). apply Hl; [|exact L].
+  now apply live_test_sound.
 Qed.
 
-(* the property of one output (the conclusions of the Props theorems for an ARBITRARY output o) *)
-Definition c06_P (i : c06_in) (o : out1) : Prop :=
-  let cfg := i_cfg i in
-  (* C06_total_no_panic / C06_total_terminates: the call returned, and not by a panic *)
-  o_kind o <> 9%N /\ o_kind o <> 10%N /\
-  (* C06_one_observation_per_node / C06_obs_threshold on the observations handed to the signers *)
-  attr_P cfg (i_items i) (o_attr o) /\
-  (* C06_sig_threshold: the conclusion of the theorem about what a successful return hands back *)
-  (o_kind o = 0%N ->
-   exists us rep, prepare cfg = inl (Ok us) /\ o_lanes o = lanes_of rep /\
-     success_spec edv_c vrs_c cfg (item_events (i_items i)) us (o_sigs o) rep /\ o_repok o = true).
-
-(* the lane request behind a returned (selector, root) pair *)
-Definition req_of (us : list upd) (c : chain) : lane_req :=
-  match find_upd c us with Some u => u_req u | None => mkLaneReq c (0%N, []) 0 0 end.
-Lemma req_of_chain us c :
-  In c (map u_chain us) -> exists u, In u us /\ find_upd c us = Some u /\ req_of us c = u_req u /\ u_chain u = c.
+Theorem c06_ok_from_sound off i o : c06_ok_from off i o = true -> exists x, o = [x] /\ c06_full_P off i x.
 Proof.
-  intros H. apply in_map_iff in H as (u0 & E & Hu0).
-  destruct (find_first (fun u => N.eqb (u_chain u) c) us u0 Hu0) as [u Hf]; [now apply N.eqb_eq|].
-  fold (find_upd c us) in Hf. destruct (find_upd_some _ _ _ Hf) as [Hu Hc]. exists u.
-  unfold req_of. rewrite Hf. auto.
+  unfold c06_ok_from. destruct o as [|x [|y o]]; try discriminate. intros H. exists x. split; [reflexivity|].
+  now apply c06_ok1_from_sound.
 Qed.
-Lemma req_of_upd us u : NoDup (map u_chain us) -> In u us -> req_of us (u_chain u) = u_req u.
-Proof.
-  intros ND Hu. destruct (req_of_chain us (u_chain u)) as (u' & Hu' & Hf & E & Hc); [now apply in_map|].
-  rewrite E. f_equal. eapply find_upd_unique; eauto.
-Qed.
-
-Lemma sigs_entries cfg its rep' sigs :
-  forallb (fun x => negb (is_none x)) (map (sig_signer cfg rep' its) sigs) = true ->
-  exists entries : list (node * N * N),
-    sigs = map snd entries /\
-    map snode entries = map sg_node (somes (map (sig_signer cfg rep' its) sigs)) /\
-    map saddr entries = map sg_addr (somes (map (sig_signer cfg rep' its) sigs)) /\
-    forall x rep, In x entries -> sig_evidence vrs_c cfg (item_events its) rep x.
-Proof.
-  induction sigs as [|g sigs IH]; cbn [map forallb somes]; intros H.
-  - exists []. repeat split. intros x rep [].
-  - apply andb_true_iff in H as [H1 H2]. destruct (sig_signer cfg rep' its g) as [s|] eqn:Es; [|discriminate].
-    destruct (IH H2) as (en & E1 & E2 & E3 & E4). exists ((sg_node s, sg_addr s, g) :: en). cbn [map somes snd].
-    split; [now rewrite <- E1|]. split; [unfold snode at 1; cbn [fst]; now rewrite E2|].
-    split; [unfold saddr at 1; cbn [fst snd]; now rewrite E3|].
-    intros x rep [<-|Hx]; [|now apply E4]. eapply sig_signer_evidence; eauto.
-Qed.
-
-Theorem c06_ok1_sound i o : c06_ok1 i o = true -> c06_P i o.
-Proof.
-  intros H. unfold c06_ok1 in H. cbv zeta in H.
-  apply andb_true_iff in H as [H H4]. apply andb_true_iff in H as [H H3]. apply andb_true_iff in H as [H1 H2].
-  split. { intros E. rewrite E in H1. discriminate. }
-  split. { intros E. rewrite E in H2. discriminate. }
-  split. { apply attr_ok_sound, H3. }
-  intros E0. rewrite E0, N.eqb_refl in H4.
-  destruct (prepare (i_cfg i)) as [[us| | |]|f] eqn:Ep; try discriminate.
-  apply andb_true_iff in H4 as [H4 HD]. apply andb_true_iff in H4 as [H4 HC]. apply andb_true_iff in H4 as [HA HB].
-  apply andb_true_iff in HC as [HC C4]. apply andb_true_iff in HC as [HC C3]. apply andb_true_iff in HC as [C1 C2].
-  apply (list_eqb_eq N.eqb (fun a b => proj1 (N.eqb_eq a b))) in HA.
-  destruct (prepare_spec _ _ Ep) as (NDus & _ & WF).
-  set (lanes := o_lanes o) in *. set (its := i_items i) in *. set (cfg := i_cfg i) in *.
-  assert (Pch : Permutation (map fst lanes) (map u_chain us)) by (rewrite HA; apply sortN_perm_self).
-  assert (NDl : NoDup (map fst lanes)) by (eapply Permutation_NoDup; [symmetry; exact Pch|exact NDus]).
-  assert (Hin_ch : forall p, In p lanes -> In (fst p) (map u_chain us)).
-  { intros p Hp. eapply Permutation_in; [exact Pch|]. now apply in_map. }
-  set (rep := map (fun p => (req_of us (fst p), snd p)) lanes).
-  assert (Hl : lanes = lanes_of rep).
-  { unfold lanes_of, rep. rewrite map_map. cbn [fst snd]. rewrite <- (map_id lanes) at 1. apply map_ext_in.
-    intros [c r] Hp. cbn [fst snd]. destruct (req_of_chain us c (Hin_ch _ Hp)) as (u & _ & _ & E & Hc).
-    rewrite E. unfold u_chain in Hc. now rewrite Hc. }
-  exists us, rep. split; [reflexivity|]. split; [exact Hl|]. split; [|exact HD].
-  split.
-  - (* rep_good *)
-    split; [|split].
-    + unfold rep. rewrite map_map. cbn [fst]. rewrite <- (map_map fst (req_of us)), HA.
-      etransitivity; [apply Permutation_map, sortN_perm_self|]. rewrite map_map.
-      erewrite map_ext_in; [reflexivity|]. intros u Hu. cbn. now apply req_of_upd.
-    + apply (sorted_map (fun a : lane_req * root => lr_chain (fst a)) N.le).
-      replace (map (fun a : lane_req * root => lr_chain (fst a)) rep) with (map fst lanes).
-      * rewrite HA. apply sortN_sorted.
-      * rewrite Hl. unfold lanes_of. now rewrite map_map.
-    + intros q r Hin. unfold rep in Hin. apply in_map_iff in Hin as ([c r0] & E & Hp). cbn [fst snd] in E.
-      inversion E; subst q r0. clear E.
-      destruct (req_of_chain us c (Hin_ch _ Hp)) as (u & Hu & _ & E & Hc). exists u. split; [exact Hu|].
-      split; [exact E|]. rewrite forallb_forall in HB. specialize (HB u Hu).
-      destruct (alookup (u_chain u) lanes) as [r'|] eqn:El; [|discriminate].
-      apply alookup_in in El. rewrite Hc in El.
-      assert (r' = r) by (eapply nodup_fst_inj; eauto). subst r'.
-      apply andb_true_iff in HB as [B1 B2]. split.
-      * intros ->. discriminate.
-      * rewrite E. now apply voters_backed.
-  - (* the signatures *)
-    destruct (sigs_entries _ _ _ _ C1) as (en & E1 & E2 & E3 & E4). exists en.
-    split; [exact E1|]. split; [rewrite E2; apply nodupb_nodup, C3|].
-    split; [unfold zlen in *; rewrite E1, map_length in C4; apply Z.leb_le, C4|].
-    split; [|intros x Hx; now apply E4].
-    apply (sorted_map saddr N.le). rewrite E3. eapply sorted_weaken; [|apply strictly_ascN_sorted, C2].
-    intros a b Hab. apply N.lt_le_incl, Hab.
-Qed.
-
+Theorem c06_sound_full i o : c06_ok i o = true -> exists x, o = [x] /\ c06_full_P 0 i x.
+Proof. exact (c06_ok_from_sound 0 i o). Qed.
 Theorem c06_sound i o : c06_ok i o = true -> exists x, o = [x] /\ c06_P i x.
+Proof. intros H. destruct (c06_sound_full i o H) as (x & E & P & _). now exists x. Qed.
+
+(* ORDER: the signatures of a passing successful output are STRICTLY ascending by signer address, each the signature
+   of a configured signer whose node delivered it in the script (the stub RMNCrypto accepts signature g for signer
+   address g / 100 whatever the report) *)
+Theorem c06_core_sigs_ordered i o :
+  c06_core i o = true -> o_kind o = 0%N ->
+  exists entries : list (node * N * N),
+    o_sigs o = map snd entries /\
+    StronglySorted (fun a b => (saddr a < saddr b)%N) entries /\
+    (forall x rep, In x entries -> sig_evidence vrs_c (i_cfg i) (item_events (i_items i)) rep x) /\
+    StronglySorted N.lt (map (fun g => (g / 100)%N) (o_sigs o)).
 Proof.
-  unfold c06_ok. destruct o as [|x [|y o]]; try discriminate. intros H. exists x. split; [reflexivity|].
-  now apply c06_ok1_sound.
+  intros H E0. unfold c06_core in H. cbv zeta in H. apply andb_true_iff in H as [_ H4]. rewrite E0, N.eqb_refl in H4.
+  destruct (prepare (i_cfg i)) as [[us| | |]|f]; try discriminate.
+  apply andb_true_iff in H4 as [H4 _]. apply andb_true_iff in H4 as [_ HC].
+  apply andb_true_iff in HC as [HC _]. apply andb_true_iff in HC as [HC _]. apply andb_true_iff in HC as [C1 C2].
+  destruct (sigs_entries _ _ _ _ C1) as (en & E1 & _ & E3 & E4). exists en.
+  assert (S : StronglySorted (fun a b => (saddr a < saddr b)%N) en).
+  { apply (sorted_map saddr N.lt). rewrite E3. now apply strictly_ascN_sorted. }
+  split; [exact E1|]. split; [exact S|]. split; [intros x rep Hx; now apply E4|].
+  rewrite E1, map_map. apply (sorted_map (fun x : node * N * N => (snd x / 100)%N) N.lt).
+  assert (Hq : forall x, In x en -> (snd x / 100)%N = saddr x).
+  { intros [[n a] g] Hx. destruct (E4 _ [] Hx) as [_ (id & e & _ & _ & _ & Hv)]. unfold vrs_c in Hv.
+    now apply N.eqb_eq in Hv. }
+  clear -S Hq. induction S as [|x l S IH F]; constructor.
+  - apply IH. intros y Hy. apply Hq. now right.
+  - rewrite Forall_forall in F |- *. intros y Hy. rewrite (Hq x (or_introl eq_refl)), (Hq y (or_intror Hy)). now apply F.
 Qed.
 
-(* ================================================================================================================
-   (a) EVERY OUTCOME THE MODEL ALLOWS PASSES
-   ================================================================================================================ *)
-(* what the harness guarantees of a configuration (spec 'assumptions'): remote signer node indexes pairwise distinct
-   (the hypothesis of the Props theorems), signer addresses pairwise distinct, RMNHome node ids pairwise distinct *)
-Definition cfg_wf (cfg : config) : Prop :=
-  NoDup (map sg_node (c_signers cfg)) /\ NoDup (map sg_addr (c_signers cfg)) /\ NoDup (map hn_id (c_nodes cfg)).
-
-Section ModelPasses.
-  Variable cfg : config.
-  Variable sc : sched.
-  Variable ITS : list item.
-  Hypothesis WF : cfg_wf cfg.
-  Notation stp := (gstep edv_c vrs_c fixed cfg sc).
-  Notation runM := (run edv_c vrs_c fixed cfg sc).
-
-  Definition ev_ok (e : event) : Prop :=
-    match e with Resp n b => In (Resp n b) (item_events ITS) | _ => True end.
-  Definition reach (g : gstate) : Prop := exists evs, g = runM evs /\ Forall ev_ok evs.
-  Definition accI (acc : acc_t) : Prop :=
-    acc = [] \/
-    exists us pre, prepare cfg = inl (Ok us) /\ Forall ev_ok pre /\
-      acc_good edv_c cfg pre us acc /\ sufficient us acc = Ok true.
-
-  Lemma reach_init : reach (ginit cfg sc).
-  Proof. exists []. split; [reflexivity|constructor]. Qed.
-  Lemma reach_step g e : reach g -> ev_ok e -> reach (stp g e).
-  Proof.
-    intros (evs & -> & F) He. exists (evs ++ [e]). split.
-    - unfold run. now rewrite fold_left_app.
-    - apply Forall_app. split; [exact F|]. constructor; [exact He|constructor].
-  Qed.
-  Lemma accI_step g e acc : reach g -> ev_ok e -> accI acc -> accI (acc_after cfg sc g e acc).
-  Proof.
-    intros (evs & -> & F) He HI. unfold acc_after.
-    destruct (runM evs) as [us s| |] eqn:Er; try exact HI.
-    destruct (stepA edv_c fixed cfg sc us s e) as [s'|[a|f]] eqn:Es; try exact HI.
-    pose proof (ginv_run edv_c vrs_c cfg sc (proj1 WF) evs) as G. rewrite Er in G. destruct G as [P I].
-    destruct (invA_done edv_c vrs_c cfg sc _ _ _ _ _ I Es) as [G S].
-    right. exists us, (evs ++ [e]). split; [exact P|]. split; [|split; [exact G|exact S]].
-    apply Forall_app. split; [exact F|]. constructor; [exact He|constructor].
-  Qed.
-  Lemma acc_after_timer g acc : acc_after cfg sc g TimerFire acc = acc.
-  Proof.
-    unfold acc_after. destruct g as [us s| |]; try reflexivity. cbn [stepA]. destruct (a_exp s); reflexivity.
-  Qed.
-  Lemma reach_settle g : reach g -> reach (settle cfg sc g).
-  Proof. intros R. unfold settle. destruct (g_due g); [|exact R]. apply reach_step; [exact R|exact I]. Qed.
-
-  Definition go' (g : gstate) (acc : acc_t) (e : event) (r : list item) : list (gstate * acc_t) :=
-    eager_acc cfg sc (step1 cfg sc g e) (acc_after cfg sc g e acc) r.
-
-  Lemma go_reach g acc e r :
-    (forall g0 acc0, reach g0 -> accI acc0 ->
-       forall x, In x (eager_acc cfg sc g0 acc0 r) -> reach (fst x) /\ accI (snd x)) ->
-    reach g -> accI acc -> ev_ok e -> forall x, In x (go' g acc e r) -> reach (fst x) /\ accI (snd x).
-  Proof.
-    intros IH R A He x Hx. unfold go' in Hx. eapply IH; [| |exact Hx].
-    - apply reach_step; assumption.
-    - apply accI_step; assumption.
-  Qed.
-
-  Lemma eager_reach its : incl its ITS -> forall g acc, reach g -> accI acc ->
-    forall x, In x (eager_acc cfg sc g acc its) -> reach (fst x) /\ accI (snd x).
-  Proof.
-    induction its as [|it r IH]; intros Hincl g acc R A x Hx.
-    - cbn [eager_acc] in Hx. destruct Hx as [<-|[]]. cbn [fst snd]. split; [now apply reach_settle|exact A].
-    - assert (Hr : incl r ITS) by (intros y Hy; apply Hincl; now right).
-      specialize (IH Hr). pose proof (reach_settle g R) as Rs.
-      assert (Hit : In it ITS) by (apply Hincl; now left).
-      destruct it as [n b|n b| |].
-      + change (In x (go' (settle cfg sc g) acc (Resp n b) r)) in Hx.
-        assert (He : ev_ok (Resp n b)) by (cbn; apply item_events_in; exists (IResp n b); auto).
-        exact (go_reach _ _ _ _ IH Rs A He x Hx).
-      + assert (He : ev_ok (Resp n b)) by (cbn; apply item_events_in; exists (IRace n b); auto).
-        change (In x (if g_due g then go' (settle cfg sc g) acc (Resp n b) r ++ go' g acc (Resp n b) r
-                      else go' g acc (Resp n b) r)) in Hx.
-        destruct (g_due g); [apply in_app_iff in Hx as [Hx|Hx]|].
-        * exact (go_reach _ _ _ _ IH Rs A He x Hx).
-        * exact (go_reach _ _ _ _ IH R A He x Hx).
-        * exact (go_reach _ _ _ _ IH R A He x Hx).
-      + change (In x (go' (settle cfg sc g) acc CtxDone r)) in Hx. exact (go_reach _ _ CtxDone _ IH Rs A I x Hx).
-      + change (In x (if g_due g then go' (settle cfg sc g) acc CtxDone r ++ go' g acc CtxDone r
-                      else go' g acc CtxDone r)) in Hx.
-        destruct (g_due g); [apply in_app_iff in Hx as [Hx|Hx]|].
-        * exact (go_reach _ _ CtxDone _ IH Rs A I x Hx).
-        * exact (go_reach _ _ CtxDone _ IH R A I x Hx).
-        * exact (go_reach _ _ CtxDone _ IH R A I x Hx).
-  Qed.
-End ModelPasses.
-
-Lemma attr_of_in acc a :
-  In a (attr_of acc) <->
-  exists n l, In (n, l) acc /\ a = (n, sort_by (fun x y => N.leb (fst x) (fst y)) (plain l)).
+(* ---------------- (a): every outcome the model allows passes the new clauses ---------------- *)
+Lemma rec_good_ok cfg us r :
+  (forall u, In u us -> upd_wf cfg u) -> rec_good cfg us r ->
+  (if is_k0 (send_of r)
+   then forallb (fun ch => memN ch (map u_chain us) && memN (snd_node (send_of r)) (rmn_nodes_of cfg ch))
+                (snd_chains (send_of r))
+   else is_k1 (send_of r) && memN (snd_node (send_of r)) (signer_nodes cfg) && is_home cfg (snd_node (send_of r))) = true.
 Proof.
-  unfold attr_of. rewrite in_map_iff. split.
-  - intros ([n l] & E & H). apply sort_by_in in H. exists n, l. split; [exact H|]. now rewrite <- E.
-  - intros (n & l & H & ->). exists (n, l). split; [reflexivity|]. now apply sort_by_in.
+  intros WFu [[K H]|(K & Hs & Hh)]; unfold is_k0, is_k1; change (snd_kind (send_of r)) with (sd_kind r);
+    change (snd_node (send_of r)) with (sd_node r); change (snd_chains (send_of r)) with (sd_chains r); rewrite K.
+  - change (N.eqb 0 0) with true. cbv iota. apply forallb_forall. intros ch Hch. destruct (H ch Hch) as (u & Hu & Ec & Hn).
+    apply andb_true_iff. split; apply memN_in.
+    + rewrite <- Ec. now apply in_map.
+    + destruct (WFu u Hu) as (_ & En & _). rewrite <- Ec, <- En. exact Hn.
+  - change (N.eqb 1 0) with false. change (N.eqb 1 1) with true. cbv iota. cbn [andb].
+    rewrite Hh, andb_true_r. now apply memN_in.
 Qed.
 
+Lemma log_good_ok cfg us l attr :
+  prepare cfg = inl (Ok us) -> log_good cfg us l -> sig_sent l = negb (nilb attr) ->
+  log_ok cfg (map send_of l) attr = true.
+Proof.
+  intros P (F & N0 & N1) Hs. unfold log_ok. rewrite P. destruct (prepare_spec _ _ P) as (_ & _ & WFu).
+  apply andb_true_iff. split; [apply andb_true_iff; split; [apply andb_true_iff; split|]|].
+  - apply forallb_forall. intros s Hin. apply in_map_iff in Hin as (r & <- & Hr). rewrite Forall_forall in F.
+    apply rec_good_ok; [intros u Hu; now destruct (WFu u Hu)|now apply F].
+  - rewrite filter_map_comm, map_map. apply NoDup_nodupb. exact N0.
+  - rewrite filter_map_comm, map_map. apply NoDup_nodupb. exact N1.
+  - rewrite existsb_k1_map, Hs. apply eqb_reflx.
+Qed.
 
-Lemma somes_map_some {A B} (f : A -> B) (l : list A) : somes (map (fun x => Some (f x)) l) = map f l.
-Proof. induction l as [|x l IH]; cbn [map somes]; [reflexivity|now rewrite IH]. Qed.
+Lemma prepare_inr cfg f : prepare cfg = inr f -> f = FDupChain \/ f = FNoF \/ f = FNothingToDo.
+Proof.
+  unfold prepare. destruct (negb _); [intros H; inversion H; auto|].
+  destruct (with_F _ _); [|intros H; inversion H; auto]. destruct (filter _ _); intros H; inversion H; auto.
+Qed.
 
-Section SuccessPasses.
-  Variable cfg : config.
-  Variable its : list item.
-  Hypothesis WF : cfg_wf cfg.
-  Variable evs : list event.
-  Hypothesis Hevs : Forall (ev_ok its) evs.
+Theorem model_outcome_log_kind off i x :
+  cfg_wf (i_cfg i) -> In x (c06_model_from off i) -> o_kind x <> 10%N ->
+  log_ok (i_cfg i) (o_log x) (o_attr x) = true /\ kind_ok (i_cfg i) (i_items i) x = true.
+Proof.
+  intros WF Hx Hk. destruct (model_outcome_reach off i x WF Hx) as (order1 & ro & g & acc & _ & _ & _ & -> & K).
+  set (sc := sched_of off i order1 ro) in *. destruct K as ((evs & Er & F) & A & J).
+  destruct g as [us s|s|f l]; [exfalso; apply Hk; reflexivity|exfalso; apply Hk; reflexivity|].
+  symmetry in Er. cbn [sigJ] in J.
+  assert (Hlog : o_log (out_of (GFinal f l) acc) = map send_of l) by (destruct f; reflexivity).
+  assert (Hattr : o_attr (out_of (GFinal f l) acc) = if sig_sent l then attr_of acc else []) by (destruct f; reflexivity).
+  assert (Hsig : sig_sent l = negb (nilb (if sig_sent l then attr_of acc else []))).
+  { destruct (sig_sent l) eqn:Es; [|reflexivity]. destruct (attr_of acc) eqn:Ea; [|reflexivity].
+    apply attr_of_nil in Ea. exfalso. now apply J. }
+  destruct (prepare (i_cfg i)) as [r|fl] eqn:P.
+  - destruct (prepare_not_panic _ r P) as [us ->].
+    pose proof (requests_wellformed edv_c vrs_c _ sc (proj1 WF) evs us P) as LG. rewrite Er in LG. cbn [g_log] in LG.
+    split; [rewrite Hlog, Hattr; now apply (log_good_ok _ us)|].
+    unfold kind_ok. rewrite P, Hlog, existsb_k1_map.
+    destruct f as [sigs rep|ff|]; [reflexivity| |reflexivity].
+    pose proof (failure_origin edv_c vrs_c _ sc (proj1 WF) evs ff l Er) as Fo.
+    destruct ff; cbn [out_of o_kind fail_code N.eqb Pos.eqb negb andb]; rewrite ?andb_true_r; try reflexivity.
+    + destruct Fo as [Fo _]. rewrite P in Fo. discriminate.
+    + rewrite Forall_forall in F. apply (F _ Fo).
+    + now rewrite (all_k0_no_sig _ Fo).
+    + rewrite Forall_forall in F. apply (F _ Fo).
+  - pose proof (refused_config edv_c vrs_c _ sc fl evs P) as Er'. rewrite Er in Er'. inversion Er'; subst f l.
+    split; [unfold log_ok; rewrite P; reflexivity|].
+    unfold kind_ok. rewrite P. cbn [out_of o_kind o_log map existsb]. rewrite N.eqb_refl.
+    destruct (prepare_inr _ _ P) as [->|[->| ->]]; reflexivity.
+Qed.
 
-  (* the evidence of the Props theorems is found again by the executable property in the script *)
-  Lemma evidence_voter u n r :
-    u_nodes u = rmn_nodes_of cfg (u_chain u) ->
-    vote_evidence edv_c cfg evs n (u_req u) r -> In n (voters cfg u r its).
-  Proof.
-    intros Hn [(hn' & Hhn' & Eid' & Hch')
-               (id & so & ob & hn & lu & Hin & Eso & Eh & Esig & Ed & Eg & Hlu & Esrc & Eitv & Eroot)].
-    rewrite Forall_forall in Hevs. apply Hevs in Hin. cbn [ev_ok] in Hin.
-    apply item_events_in in Hin as (it & Hit & Ei).
-    unfold voters. apply dedupN_in, somes_in, in_map_iff. exists it. split; [|exact Hit].
-    unfold good_vote. rewrite Ei. destruct so as [o sg]. cbn [so_obs so_sig] in *. subst o. rewrite Eh.
-    assert (hn' = hn).
-    { unfold find_home in Eh. apply find_some in Eh as [Hhn Eid]. apply N.eqb_eq in Eid.
-      destruct WF as (_ & _ & NDh). eapply nodup_map_inj; eauto. congruence. }
-    subst hn'.
-    match goal with |- (if ?c then _ else _) = _ => assert (C : c = true); [|rewrite C; reflexivity] end.
-    repeat (apply andb_true_iff; split).
-    - rewrite Hn. apply memN_in, rmn_nodes_of_spec. exists hn. auto.
-    - now apply memN_in.
-    - now apply opt_pairNN_eq.
-    - now apply N.eqb_eq.
-    - exact Esig.
-    - apply existsb_exists. exists lu. split; [exact Hlu|]. rewrite Eroot, N.eqb_refl, andb_true_r.
-      apply andb_true_iff. split; [now apply opt_src_eq|now apply opt_pairNN_eq].
-  Qed.
-
-  Lemma evidence_signer rep rep' n a g :
-    sig_evidence vrs_c cfg evs rep (n, a, g) -> sig_signer cfg rep' its g = Some (mkSigner n a).
-  Proof.
-    intros [Hs (id & e & Hin & Hlen & Esig & Hv)].
-    rewrite Forall_forall in Hevs. apply Hevs in Hin. cbn [ev_ok] in Hin.
-    apply item_events_in in Hin as (it & Hit & Ei).
-    unfold sig_signer.
-    match goal with |- find ?f _ = _ => set (pred := f) end.
-    assert (Hp : pred (mkSigner n a) = true).
-    { unfold pred. cbn [sg_addr sg_node]. apply andb_true_iff. split; [exact Hv|].
-      apply existsb_exists. exists it. split; [exact Hit|]. rewrite Ei, N.eqb_refl, Hlen. cbn [andb].
-      now apply N.eqb_eq. }
-    destruct (find_first pred _ _ Hs Hp) as [s' Hf]. rewrite Hf. f_equal.
-    apply find_some in Hf as [Hs' Hp']. unfold pred in Hp'. apply andb_true_iff in Hp' as [Hv' _].
-    unfold vrs_c in Hv, Hv'. apply N.eqb_eq in Hv, Hv'.
-    destruct WF as (_ & NDa & _). eapply nodup_map_inj; eauto. cbn [sg_addr]. congruence.
-  Qed.
-
-  Lemma success_passes i us sigs rep log attr :
-    i_cfg i = cfg -> i_items i = its ->
-    prepare cfg = inl (Ok us) -> success_spec edv_c vrs_c cfg evs us sigs rep -> attr_ok cfg its attr = true ->
-    c06_ok1 i (mkOut 0 (lanes_of rep) sigs log attr true) = true.
-  Proof.
-    intros Ec Ei P [(Pm & Srt & Hrep) (en & E1 & NDn & Hlen & Sa & Hev)] Hattr.
-    destruct (prepare_spec _ _ P) as (NDus & _ & WFu).
-    unfold c06_ok1. cbv zeta. cbn [o_kind o_lanes o_sigs o_attr o_repok]. rewrite Ec, Ei, Hattr, P.
-    change (N.eqb 0 9) with false. change (N.eqb 0 10) with false. change (N.eqb 0 0) with true.
-    cbn [negb andb]. rewrite andb_true_r.
-    assert (Efst : map fst (lanes_of rep) = map lr_chain (map fst rep)).
-    { unfold lanes_of. now rewrite !map_map. }
-    assert (Pch : Permutation (map fst (lanes_of rep)) (map u_chain us)).
-    { rewrite Efst. unfold u_chain. rewrite <- (map_map u_req lr_chain). now apply Permutation_map. }
-    assert (NDl : NoDup (map fst (lanes_of rep))).
-    { eapply Permutation_NoDup; [symmetry; exact Pch|exact NDus]. }
-    apply andb_true_iff. split; [apply andb_true_iff; split|].
-    - (* exactly the requested lanes, ascending *)
-      replace (map fst (lanes_of rep)) with (sortN (map u_chain us)); [apply list_eqb_refl, N.eqb_refl|].
-      apply nsorted_perm_eq; [apply sortN_sorted| |].
-      + unfold lanes_of. rewrite map_map. cbn [fst].
-        apply (sorted_map (fun a : lane_req * root => lr_chain (fst a)) N.le). exact Srt.
-      + etransitivity; [apply sortN_perm_self|]. symmetry. exact Pch.
-    - (* every root handed back: not empty, F_home+1 distinct voters found in the script *)
-      apply forallb_forall. intros u Hu.
-      assert (Hq : In (u_req u) (map fst rep)).
-      { eapply Permutation_in; [symmetry; exact Pm|]. now apply in_map. }
-      apply in_map_iff in Hq as ([q r] & Eq & Hin). cbn [fst] in Eq. subst q.
-      assert (Hl : In (u_chain u, r) (lanes_of rep)).
-      { unfold lanes_of. apply in_map_iff. exists (u_req u, r). split; [reflexivity|exact Hin]. }
-      rewrite (alookup_NoDup_In _ _ _ NDl Hl).
-      destruct (Hrep _ _ Hin) as (u' & Hu' & Eq & Hr & (vs & NDv & Lv & Hvs)).
-      assert (u' = u).
-      { eapply (nodup_map_inj u_chain); eauto. unfold u_chain. now rewrite Eq. }
-      subst u'. apply andb_true_iff. split; [apply negb_true_iff, N.eqb_neq, Hr|].
-      unfold gte_f_plus_one. apply Z.leb_le. eapply Z.le_trans; [exact Lv|]. unfold zlen. apply inj_le.
-      apply NoDup_incl_length; [exact NDv|]. intros n Hn. apply evidence_voter; [|now apply Hvs].
-      now destruct (WFu u Hu) as [(_ & Hnodes & _) _].
-    - (* the signatures *)
-      set (rep' := map _ us).
-      assert (Esg : map (sig_signer cfg rep' its) sigs = map (fun x => Some (mkSigner (snode x) (saddr x))) en).
-      { rewrite E1, map_map. apply map_ext_in. intros [[n a] g] Hx. cbn [snd].
-        eapply evidence_signer. apply Hev. exact Hx. }
-      rewrite Esg, somes_map_some, !map_map. cbn [sg_addr sg_node].
-      repeat (apply andb_true_iff; split).
-      + apply forallb_forall. intros x Hx. apply in_map_iff in Hx as (y & <- & _). reflexivity.
-      + apply sorted_nodup_strict; [apply (sorted_map saddr N.le), Sa|].
-        apply (nodup_map_transfer snode saddr); [exact NDn|]. intros [[n1 a1] g1] [[n2 a2] g2] H1 H2 E.
-        unfold saddr, snode in *. cbn [fst snd] in *. subst a2.
-        destruct (Hev _ H1) as [S1 _]. destruct (Hev _ H2) as [S2 _]. destruct WF as (_ & NDa & _).
-        assert (Es : mkSigner n1 a1 = mkSigner n2 a1) by (eapply (nodup_map_inj sg_addr); eauto).
-        now inversion Es.
-      + now apply NoDup_nodupb.
-      + unfold gte_f_plus_one. apply Z.leb_le. unfold zlen in *. now rewrite E1, map_length.
-  Qed.
-End SuccessPasses.
-
-Section AttrPasses.
-  Variable cfg : config.
-  Variable ITS : list item.
-  Hypothesis WF : cfg_wf cfg.
-
-  Lemma attr_ok_acc acc : accI cfg ITS acc -> attr_ok cfg ITS (attr_of acc) = true.
-  Proof.
-    intros [->|(us & pre & P & F & G & S)]; [reflexivity|].
-    destruct (acc_good_32 _ _ _ _ _ G) as [H32 Hch]. pose proof G as [ND Hresp].
-    destruct (prepare_spec _ _ P) as (NDus & _ & WFu).
-    unfold attr_ok. destruct (attr_of acc) as [|a0 t] eqn:Ea; [reflexivity|]. rewrite <- Ea. clear Ea a0 t.
-    apply andb_true_iff. split; [apply andb_true_iff; split|].
-    - apply NoDup_nodupb. unfold attr_of. rewrite map_map. cbn [fst].
-      eapply Permutation_NoDup; [apply Permutation_map; symmetry; apply sort_by_perm|exact ND].
-    - apply forallb_forall. intros a Ha. apply attr_of_in in Ha as (n & l & Hin & ->). cbn [fst snd].
-      apply forallb_forall. intros v Hv. apply sort_by_in in Hv. unfold plain in Hv.
-      apply in_map_iff in Hv as ([ch rv] & <- & Hp). cbn [fst snd].
-      destruct (Hresp n l Hin) as (id & p & _ & Hval).
-      apply validate_obs_sound in Hval as (so & ob & hn & _ & _ & _ & _ & _ & _ & Hl & _).
-      apply validate_lus_sound in Hl as (_ & _ & Hall).
-      destruct (Hall ch rv Hp) as (lu & u & _ & Hf & Hm & _). apply find_upd_some in Hf as [Hu Hc].
-      destruct (WFu u Hu) as [(_ & Hn & _) _]. rewrite Hn, Hc in Hm. exact Hm.
-    - rewrite P. apply forallb_forall. intros u Hu.
-      unfold sufficient in S. rewrite (all_votes_32 acc H32) in S. cbn [rbind] in S. injection S as S'.
-      rewrite forallb_forall in S'. specialize (S' u Hu). unfold chain_sufficient in S'.
-      apply existsb_exists in S' as ([c r] & Hin & E). cbn [fst snd] in E. apply andb_true_iff in E as [E1 E2].
-      apply in_flat_map in Hin as ([n0 l0] & Hacc & Hpl). cbn [snd] in Hpl.
-      apply existsb_exists. exists (n0, sort_by (fun x y => N.leb (fst x) (fst y)) (plain l0)).
-      split; [apply attr_of_in; now exists n0, l0|]. cbn [snd].
-      apply existsb_exists. exists (c, r). split; [now apply sort_by_in|]. cbn [fst snd]. rewrite E1. cbn [andb].
-      apply negb_true_iff in E2. unfold lt_f_plus_one in E2. apply Z.ltb_ge in E2.
-      rewrite (count_votes_voters _ _ _ Hch) in E2. unfold gte_f_plus_one. apply Z.leb_le.
-      eapply Z.le_trans; [exact E2|]. unfold zlen. apply inj_le.
-      rewrite <- (map_length fst (filter (entry_has (u_chain u) r) acc)).
-      apply NoDup_incl_length; [now apply nodup_map_filter|].
-      intros n Hn. apply in_map_iff in Hn as ([m l] & <- & Hf). apply filter_In in Hf as [Hf1 Hf2]. cbn [fst].
-      apply filter_In. split.
-      + apply attr_voters_in. exists (sort_by (fun x y => N.leb (fst x) (fst y)) (plain l)).
-        split; [apply attr_of_in; now exists m, l|]. apply sort_by_in.
-        unfold entry_has in Hf2. cbn [snd] in Hf2. apply existsb_exists in Hf2 as (q & Hq & Eq).
-        apply vote_eqb_eq in Eq. now subst q.
-      + (* the carrier is a voter of that root in the script: its accepted observation is a response of the script *)
-        apply memN_in. apply (evidence_voter cfg ITS WF pre F).
-        * now destruct (WFu u Hu) as [(_ & Hnodes & _) _].
-        * eapply (acc_vote_evidence edv_c cfg pre us acc u m l r); eauto.
-          -- intros u' Hu'. now destruct (WFu u' Hu').
-          -- eapply entry_has_in; [|exact Hf2]. now apply (H32 m).
-  Qed.
-End AttrPasses.
-
-Lemma fail_code_kind f :
-  N.eqb (fail_code f) 9 = false /\ N.eqb (fail_code f) 10 = false /\ N.eqb (fail_code f) 0 = false.
-Proof. destruct f; repeat split; reflexivity. Qed.
-
-(* (a) for one outcome: whatever order / race resolution the model tries, the outcome passes, provided the call has
-   returned by the end of the script (kind 10 = "still running": the harness extends the script until the call has
-   returned or it has cancelled the context) *)
+(* (a) for one outcome *)
 Theorem c06_model_outcome_passes off i x :
-  cfg_wf (i_cfg i) -> In x (c06_model_from off i) -> o_kind x <> 10%N -> c06_ok1 i x = true.
+  cfg_wf (i_cfg i) -> In x (c06_model_from off i) -> o_kind x <> 10%N -> c06_ok1_from off i x = true.
 Proof.
-  intros WF Hx Hk. unfold c06_model_from in Hx. cbv zeta in Hx.
-  apply in_flat_map in Hx as (order1 & _ & Hx). apply in_flat_map in Hx as (ro & _ & Hx).
-  apply in_map_iff in Hx as ([g acc] & <- & Hga). cbn [fst snd] in *.
-  match type of Hga with In _ (eager_acc _ ?s _ _ _) => set (sc := s) in * end.
-  destruct (eager_reach (i_cfg i) sc (i_items i) WF (i_items i) (incl_refl _) _ []
-              (reach_init _ _ _) (or_introl eq_refl) _ Hga) as [(evs & Er & F) A].
-  cbn [fst snd] in *.
-  destruct g as [us s|s|f log]; [exfalso; apply Hk; reflexivity|exfalso; apply Hk; reflexivity|].
-  assert (Hattr : attr_ok (i_cfg i) (i_items i) (if sig_sent (g_log (GFinal f log)) then attr_of acc else []) = true).
-  { destruct (sig_sent _); [now apply (attr_ok_acc _ (i_items i) WF)|reflexivity]. }
-  destruct f as [sigs rep|fl|].
-  - destruct (success_sound edv_c vrs_c _ sc (proj1 WF) evs sigs rep log (eq_sym Er)) as (us & P & S).
-    eapply (success_passes (i_cfg i) (i_items i) WF evs F); eauto.
-  - unfold c06_ok1. cbv zeta. cbn [out_of o_kind o_attr]. destruct (fail_code_kind fl) as (K9 & K10 & K0).
-    rewrite K9, K10, K0, Hattr. reflexivity.
-  - exfalso. exact (total_no_panic edv_c vrs_c _ sc (proj1 WF) evs log (eq_sym Er)).
-Qed.
-
-(* the comparison the judge makes is an equality *)
-Lemma out1_eqb_eq a b : out1_eqb a b = true -> a = b.
-Proof.
-  destruct a as [k1 l1 s1 g1 a1 r1], b as [k2 l2 s2 g2 a2 r2]. unfold out1_eqb. cbn [o_kind o_lanes o_sigs o_log o_attr o_repok].
-  intros H. repeat (apply andb_true_iff in H as [H ?]).
-  apply N.eqb_eq in H. subst k2.
-  assert (l1 = l2) by (eapply list_eqb_eq; [|eassumption]; intros p q; apply vote_pair_eqb_eq). subst l2.
-  assert (s1 = s2) by (eapply list_eqb_eq; [|eassumption]; intros p q; apply N.eqb_eq). subst s2.
-  assert (g1 = g2).
-  { eapply list_eqb_eq; [|eassumption]. intros [[[[ka na] ia] oa] ca] [[[[kb nb] ib] ob] cb] E. unfold send_eqb in E.
-    repeat (apply andb_true_iff in E as [E ?]). apply N.eqb_eq in E.
-    repeat match goal with X : N.eqb _ _ = true |- _ => apply N.eqb_eq in X end.
-    match goal with X : Bool.eqb _ _ = true |- _ => apply eqb_prop in X end.
-    match goal with X : list_eqb N.eqb _ _ = true |- _ =>
-      apply (list_eqb_eq N.eqb (fun a b => proj1 (N.eqb_eq a b))) in X end.
-    subst. reflexivity. }
-  subst g2.
-  assert (a1 = a2).
-  { eapply list_eqb_eq; [|eassumption]. intros [na la] [nb lb] E. unfold pair_eqb in E. cbn [fst snd] in E.
-    apply andb_true_iff in E as [E1 E2]. apply N.eqb_eq in E1.
-    apply (list_eqb_eq vote_pair_eqb (fun p q => proj1 (vote_pair_eqb_eq p q))) in E2. subst. reflexivity. }
-  subst a2.
-  match goal with X : Bool.eqb _ _ = true |- _ => apply eqb_prop in X end. subst. reflexivity.
+  intros WF Hx Hk. unfold c06_ok1_from. rewrite (c06_model_outcome_core off i x WF Hx Hk).
+  destruct (model_outcome_log_kind off i x WF Hx Hk) as [-> ->]. cbn [andb].
+  destruct (N.eqb_spec (o_kind x) 0) as [E|N0]; [reflexivity|].
+  destruct (live_test_from off i) eqn:L; [|reflexivity]. exfalso. apply N0. now apply (live_test_success off i x WF L).
 Qed.
 
 (* (a) as the judge sees it: an implementation output that agrees with the model (no code 1) passes the executable
    property (no code 2) *)
 Theorem c06_model_from_passes off i o :
   cfg_wf (i_cfg i) -> c06_oeqb (c06_model_from off i) o = true ->
-  (forall x, o = [x] -> o_kind x <> 10%N) -> c06_ok i o = true.
+  (forall x, o = [x] -> o_kind x <> 10%N) -> c06_ok_from off i o = true.
 Proof.
   intros WF H Hk. unfold c06_oeqb in H. destruct o as [|x [|y o]]; try discriminate.
   apply existsb_exists in H as (y & Hy & E). apply out1_eqb_eq in E. subst y.
-  unfold c06_ok. eapply c06_model_outcome_passes; eauto.
+  unfold c06_ok_from. eapply c06_model_outcome_passes; eauto.
 Qed.
 Theorem c06_model_passes i o :
   cfg_wf (i_cfg i) -> c06_oeqb (c06_model i) o = true ->
@@ -673,13 +250,55 @@ Qed.
 
 (* every call of a history that passes satisfies the single-call property IN THE CONFIGURATION CURRENT AT THAT CALL,
    witnessed by responses among THAT call's own script (the reading of C06_history_sig_threshold /
-   C06_history_obs_threshold on an arbitrary output) *)
-Theorem hist_sound h : forall o,
-  hist_ok h o = true -> Forall2 (fun c y => exists x, y = [x] /\ c06_P (snd c) x) h o.
+   C06_history_obs_threshold on an arbitrary output), with the liveness clause read at THAT call's position in the
+   request-id stream *)
+Theorem hist_sound_full h : forall o,
+  hist_ok h o = true ->
+  Forall2 (fun c y => exists x, y = [x] /\ c06_full_P (N.to_nat (fst c)) (snd c) x) h o.
 Proof.
   induction h as [|c h IH]; intros o H; destruct o as [|y o]; try discriminate; [constructor|].
   unfold hist_ok in H. cbn [forall2b] in H. apply andb_true_iff in H as [H1 H2].
-  constructor; [now apply c06_sound|now apply IH].
+  constructor; [now apply c06_ok_from_sound|now apply IH].
+Qed.
+Theorem hist_sound h : forall o,
+  hist_ok h o = true -> Forall2 (fun c y => exists x, y = [x] /\ c06_P (snd c) x) h o.
+Proof.
+  intros o H. apply hist_sound_full in H. induction H as [|c y h o (x & E & P & _) _ IH]; constructor; [|exact IH].
+  now exists x.
+Qed.
+
+(* ---------------- the single clauses, as the judge of one call sees them ---------------- *)
+Lemma c06_ok_single i o : c06_ok i o = true -> exists x, o = [x] /\ c06_ok1 i x = true.
+Proof. unfold c06_ok, c06_ok_from. destruct o as [|x [|y o]]; try discriminate. intros H. now exists x. Qed.
+Lemma c06_ok1_from_core off i o : c06_ok1_from off i o = true -> c06_core i o = true.
+Proof.
+  unfold c06_ok1_from. intros H. apply andb_true_iff in H as [H _]. apply andb_true_iff in H as [H _].
+  now apply andb_true_iff in H as [H _].
+Qed.
+Theorem c06_sigs_ordered i o :
+  c06_ok i o = true ->
+  exists x, o = [x] /\
+    (o_kind x = 0%N ->
+     exists entries : list (node * N * N),
+       o_sigs x = map snd entries /\
+       StronglySorted (fun a b => (saddr a < saddr b)%N) entries /\
+       (forall e rep, In e entries -> sig_evidence vrs_c (i_cfg i) (item_events (i_items i)) rep e) /\
+       StronglySorted N.lt (map (fun g => (g / 100)%N) (o_sigs x))).
+Proof.
+  intros H. destruct (c06_ok_single i o H) as (x & E & H1). exists x. split; [exact E|].
+  intros K. exact (c06_core_sigs_ordered i x (c06_ok1_from_core 0 i x H1) K).
+Qed.
+Theorem c06_log_kind_sound i o :
+  c06_ok i o = true ->
+  exists x, o = [x] /\ log_P (i_cfg i) (o_log x) (o_attr x) /\ kind_P (i_cfg i) (i_items i) x.
+Proof.
+  intros H. destruct (c06_sound_full i o H) as (x & E & _ & L & K & _). exists x. auto.
+Qed.
+Theorem c06_live_sound i o :
+  c06_ok i o = true -> live_test_from 0 i = true -> exists x, o = [x] /\ o_kind x = 0%N.
+Proof.
+  intros H L. destruct (c06_ok_single i o H) as (x & E & H1). exists x. split; [exact E|].
+  exact (c06_ok1_from_live 0 i x H1 L).
 Qed.
 
 (* ---------------- non-vacuity, and the defect of the executable property as it was before ---------------- *)
@@ -707,9 +326,16 @@ Module Ex.
     c06_ok (inp 105%N) [mkOut 4 [] [] log4 [(1, [(5, 105)]); (1, [(5, 105)])]%N true] = false.
   Proof. vm_compute. repeat split; reflexivity. Qed.
 
+  (* second call: the same answers arrive again (leftovers of the first call: its ids are 5.., theirs 1..4) and the
+     context is cancelled; reporting ErrTimeout WITHOUT a cancellation in the script does not pass, and judged at
+     position 0 of the id stream the leftovers would be an honest run (liveness clause: success demanded) *)
+  Definition inp_c (r : root) : c06_in := mkIn cfg [1; 2]%N [] [1; 2]%N [] [] (items r ++ [ICancel]).
   Example hist_ok_example :
-    hist_ok [(0%N, inp 105%N); (4%N, inp 105%N)] [[good_out]; [mkOut 4 [] [] [] [] true]] = true.
-  Proof. vm_compute. reflexivity. Qed.
+    hist_ok [(0%N, inp 105%N); (4%N, inp_c 105%N)] [[good_out]; [mkOut 4 [] [] [] [] true]] = true /\
+    hist_ok [(0%N, inp 105%N); (4%N, inp 105%N)] [[good_out]; [mkOut 4 [] [] [] [] true]] = false /\
+    hist_ok [(0%N, inp 105%N); (4%N, inp 105%N)] [[good_out]; [mkOut 10 [] [] [] [] true]] = false /\
+    live_test_from 0 (inp 105%N) = true /\ live_test_from 4 (inp 105%N) = false.
+  Proof. vm_compute. repeat split; reflexivity. Qed.
 
   (* the executable property as it stood.  (1) the conjunct "the root handed back is not the empty root" was missing;
      (2) the carriers of a root among the attributed observations were counted without looking for their votes in
@@ -788,4 +414,47 @@ Module Ex.
     pose proof (Hone a (or_introl eq_refl)). pose proof (Hone b (or_intror (or_introl eq_refl))). subst.
     inversion ND as [|? ? Hx _]. apply Hx. now left.
   Qed.
+
+  (* ---- the executable property as it stood before the log / error-kind / liveness clauses: exactly [c06_core] ---- *)
+  Definition c06_ok1_before2 (i : c06_in) (o : out1) : bool := c06_core i o.
+
+  (* (1) the Send log was not judged: an observation request to node 9 (not an RMNHome node) and a report-signature
+     request although no observations were handed on (no attributed observations) passed *)
+  Definition bad_log_out : out1 := mkOut 4 [] [] [(0, 9, 1, true, [5]); (1, 1, 2, true, [])]%N [] true.
+  Example c06_ok1_before2_log_unjudged :
+    c06_ok1_before2 (inp_c 105%N) bad_log_out = true /\ c06_ok1 (inp_c 105%N) bad_log_out = false /\
+    ~ log_P (i_cfg (inp_c 105%N)) (o_log bad_log_out) (o_attr bad_log_out).
+  Proof.
+    split; [vm_compute; reflexivity|]. split; [vm_compute; reflexivity|].
+    intros H. unfold log_P in H.
+    assert (Eus : prepare (i_cfg (inp_c 105%N)) = inl (Ok us1)) by (vm_compute; reflexivity).
+    rewrite Eus in H. destruct H as (H & _). destruct (H _ (or_introl eq_refl)) as [[_ Hc]|[K _]]; [|discriminate K].
+    destruct (Hc 5%N (or_introl eq_refl)) as [_ Hn]. vm_compute in Hn. intuition discriminate.
+  Qed.
+
+  (* (2) the error kind was free: ErrTimeout although the script never cancels the context passed (one observer has
+     answered, the call would still be waiting) *)
+  Definition inp_wait : c06_in := mkIn cfg [1; 2]%N [] [1; 2]%N [] [] [IResp 1 (BMsg 1 (obs_of 21 105))]%N.
+  Definition bad_kind_out : out1 := mkOut 4 [] [] [(0, 1, 1, true, [5]); (0, 2, 2, true, [5])]%N [] true.
+  Example c06_ok1_before2_kind_free :
+    c06_ok1_before2 inp_wait bad_kind_out = true /\ c06_ok1 inp_wait bad_kind_out = false /\
+    ~ kind_P (i_cfg inp_wait) (i_items inp_wait) bad_kind_out.
+  Proof.
+    split; [vm_compute; reflexivity|]. split; [vm_compute; reflexivity|].
+    intros (_ & _ & H & _). destruct (H eq_refl) as [Hc|Hc]; cbn in Hc; intuition discriminate.
+  Qed.
+
+  (* (3) no liveness: both observers and both signers answer correctly and in time (the hypotheses of C06_liveness
+     hold: the test says so), yet an output reporting ErrInsufficientSignatureResponses passed *)
+  Definition bad_live_out : out1 := mkOut 6 [] [] log4 [(1, [(5, 105)]); (2, [(5, 105)])]%N true.
+  Example c06_ok1_before2_no_liveness :
+    c06_ok1_before2 (inp 105%N) bad_live_out = true /\ live_test_from 0 (inp 105%N) = true /\
+    c06_ok1 (inp 105%N) bad_live_out = false /\ c06_ok1 (inp 105%N) good_out = true.
+  Proof. vm_compute. repeat split; reflexivity. Qed.
+
+  (* ORDER: the same two signatures handed back in descending address order do not pass *)
+  Example c06_order_example :
+    c06_ok1 (inp 105%N) (mkOut 0 [(5, 105)]%N [1201; 1101]%N log4 (o_attr good_out) true) = false /\
+    c06_ok1 (inp 105%N) (mkOut 0 [(5, 105)]%N [1101; 1201]%N log4 (o_attr good_out) true) = true.
+  Proof. vm_compute. split; reflexivity. Qed.
 End Ex.
